@@ -475,9 +475,34 @@ def overlaps(check, prog):
     ok = len(app) == 1
     dist_t = sum_t = None
     if ok:
-        conds = [t for t, pol in norm_cond(app[0]['cond']) if t[0] == 'cmp']
-        pols = [pol for t, pol in norm_cond(app[0]['cond']) if t[0] == 'cmp']
+        flat = []
+        for t, pol in norm_cond(app[0]['cond']):
+            if t[0] == 'bool' and t[1] == 'and' and pol:
+                flat += [(x, True) for x in t[2]]
+            else:
+                flat.append((t, pol))
+        conds = [t for t, pol in flat if t[0] == 'cmp']
+        pols = [pol for t, pol in flat if t[0] == 'cmp']
         ok = len(conds) == 1 and conds[0][1] == '<' and pols == [True]
+        # the verdict must be a boolean: with a prior among the coordinates (the
+        # usual way to fit a cluster) the comparison returns a derived prior
+        # through Prior.__array_ufunc__, and any object is truthy
+        isb = [t for t, pol in flat if pol and t[0] == 'call' and t[1] == 'isinstance'
+               and len(t[2]) == 2 and conds and t[2][0] == conds[0] and
+               any(x in (('extref', 'bool'), ('extref', 'numpy.bool_'))
+                   for x in subterms(t[2][1]))]
+        isb += [t for t, pol in flat if pol and t[0] == 'cmp' and t[1] in ('is', '==')
+                and conds and t[2] == conds[0] and t[3] == ('const', True)]
+        isb += [t for t, pol in flat if not pol and t[0] == 'call' and
+                t[1] == 'isinstance' and 'Prior' in show(t[2][1])]
+        check.require(bool(isb), 'K4-overlap-verdict-is-boolean', 'Spheres.overlaps',
+                      'a pair is reported only when the comparison gave a boolean',
+                      loc, fail_detail='the truth value of `distance < sum of radii` '
+                      'is taken as it comes: Spheres([Sphere(r=.5, center=[Uniform(-1, '
+                      '1), 0, 0]), Sphere(r=.5, center=[10, 10, 10])]) -- 17 units '
+                      'apart -- reports the pair (0, 1) and issues an OverlapWarning, '
+                      'because np.float64 < prior is a TransformedPrior(np.greater) '
+                      'and not the TypeError the except clause expects')
         if ok:
             lhs, rhs = conds[0][2], conds[0][3]
             dc = calls_in(lhs, cd)
